@@ -19,6 +19,7 @@ type runRequest struct {
 	Outs    []string `json:"outs"`
 	Probes  []string `json:"probes"`
 	Timeout int      `json:"timeout"`
+	OutTimeout int   `json:"outTimeout"`
 	Full    bool     `json:"full,omitempty"`
 }
 
@@ -157,7 +158,7 @@ func (p *pool) run(req *runRequest) (*runReply, error) {
 	p.nextID++
 	req.ID = p.nextID
 	p.mu.Unlock()
-	hard := time.Duration(req.Timeout)*time.Millisecond*time.Duration(2+6*len(req.Outs)) + 15*time.Second
+	hard := 2*(time.Duration(req.Timeout)+time.Duration(req.OutTimeout)*time.Duration(len(req.Outs)))*time.Millisecond + 20*time.Second
 	rep, err := w.roundTrip(req, hard)
 	w.count++
 	if err == nil && rep.Error != "" {
